@@ -253,3 +253,51 @@ def write_ndjson(path, rows):
     with open(path, "w") as fh:
         for r in rows:
             fh.write(json.dumps(r, separators=(",", ":")) + "\n")
+
+
+# ---------------------------------------------------------------------- vector monitors
+def parse_tla_strset(txt):
+    return re.findall(r'"((?:[^"\\]|\\.)*)"', txt)
+
+
+def parse_dump(path, fields=("cur", "bad", "div")):
+    """Parses a TLC -dump file of small states; yields dicts field -> raw text."""
+    cur = {}
+    with open(path) as fh:
+        for line in fh:
+            if line.startswith("State "):
+                if cur:
+                    yield cur
+                cur = {}
+            elif line.startswith("/\\ "):
+                k, _, v = line[3:].partition(" = ")
+                cur[k.strip()] = v.strip()
+            elif cur and line.strip():
+                # continuation of a long value
+                last = list(cur)[-1]
+                cur[last] += " " + line.strip()
+    if cur:
+        yield cur
+
+
+def run_vector_monitor(ctx, module, vectors_file, cfg=None, timeout=1200, workers=None):
+    """Runs spec/<module>.tla (16-ary tree over the ndjson vectors in ctx.specdir) and returns
+    (TLCResult, failures, divergences) where failures = [(index, [monitor names])]."""
+    dump = os.path.join(ctx.scratch, module + "_st")
+    r = ctx.tlc(module, cfg, workers=workers, timeout=timeout, extra=["-dump", dump])
+    if not r.ok:
+        sys.stdout.write(r.out[-5000:])
+        raise Infra("monitor run %s failed to evaluate (spec/trace format problem, not a verdict): %s" % (module, r.error))
+    fails, divs = [], []
+    n = 0
+    for st in parse_dump(dump + ".dump"):
+        n += 1
+        if st.get("bad", "{}") != "{}":
+            fails.append((int(st["cur"]), parse_tla_strset(st["bad"])))
+        if st.get("div", "{}") != "{}":
+            divs.append((int(st["cur"]), parse_tla_strset(st["div"])))
+    os.remove(dump + ".dump")
+    nvec = sum(1 for _ in open(os.path.join(ctx.specdir, vectors_file)))
+    if n != nvec + 1:
+        raise Infra("monitor %s visited %d states for %d vectors" % (module, n, nvec))
+    return r, sorted(fails), sorted(divs)
